@@ -60,7 +60,9 @@ func (cb *CellBuffer) SetContent(x int, y int,
 		// both cells as dirty together.  We only need to do this
 		// if we're changing content
 		if (c.width > 0) && (mainc != c.currMain || len(combc) != len(c.currComb) || (len(combc) > 0 && !reflect.DeepEqual(combc, c.currComb))) {
-			for i := 0; i < c.width; i++ {
+			// (the cell itself needs no forcing: it is compared with
+			// what was last drawn)
+			for i := 1; i < c.width; i++ {
 				cb.SetDirty(x+i, y, true)
 			}
 		}
